@@ -71,6 +71,9 @@ func main() {
 		fail2("usage: verifcheck <property> [--tier quick|thorough] [--replay file] [--seed n]")
 	}
 	id := os.Args[1]
+	if id == "selftest-determinism" {
+		os.Exit(selftest())
+	}
 	tier := os.Getenv("VERIF_TIER")
 	if tier == "" {
 		tier = "quick"
@@ -511,4 +514,93 @@ func tail(s string, n int) string {
 		lines = lines[len(lines)-n:]
 	}
 	return strings.Join(lines, "\n")
+}
+
+// selftest: for every engine configuration, the same seed is executed in several fresh
+// processes at GOMAXPROCS 1, 4 and 16; the fold of all (history, observation) hashes must
+// be identical. Run after every change to a seam, fault kind or generator.
+func selftest() int {
+	start := time.Now()
+	all := specs()
+	var ids []string
+	for id := range all {
+		ids = append(ids, id)
+	}
+	sort.Strings(ids)
+	type row struct {
+		Property, Config string
+		Race             bool
+		Digests          []string
+		Records          []int
+		OK               bool
+	}
+	var rows []row
+	bad := 0
+	for _, id := range ids {
+		spec := all[id]
+		scratch, err := os.MkdirTemp("", "verif-selftest-"+id+"-")
+		if err != nil {
+			return 2
+		}
+		bins, _, code := build(spec, scratch)
+		if code != 0 {
+			os.RemoveAll(scratch)
+			return 2
+		}
+		realGo, _ := exec.LookPath("go")
+		for _, j := range spec.Jobs {
+			r := row{Property: id, Config: j.Label, Race: j.Race, OK: true}
+			type res struct {
+				d string
+				n int
+			}
+			out := make([]res, 6)
+			var wg sync.WaitGroup
+			for k := 0; k < 6; k++ {
+				wg.Add(1)
+				go func(k int) {
+					defer wg.Done()
+					wdir := filepath.Join(scratch, fmt.Sprintf("st-%s-%d", j.Label, k))
+					os.MkdirAll(wdir, 0o755)
+					env := append([]string{}, goEnv...)
+					env = append(env, j.Env...)
+					env = append(env, "VERIF_SCRATCH="+scratch, "VERIF_STUBBIN="+filepath.Join(scratch, "stubbin"), "VERIF_REPO="+repoDir, "VERIF_REALGO="+realGo,
+						"VERIF_SEED=7", "VERIF_OUT="+wdir, "VERIF_WORKER=0", "VERIF_CONFIG="+j.Label, "VERIF_CHECKS=60", "VERIF_BUDGET_S=0", "VERIF_XPROC=",
+						"VERIF_KNOWN="+filepath.Join(verifDir, "known_findings.json"))
+					if j.Race {
+						env = append(env, "VERIF_RACELOG="+filepath.Join(wdir, "race"), "GORACE=log_path="+filepath.Join(wdir, "race")+" halt_on_error=0")
+					}
+					cpu := []string{"1", "4", "16"}[k%3]
+					run(wdir, env, bins[fmt.Sprintf("%s|%v", j.Pkg, j.Race)], "-test.run", "^TestSim$", "-test.timeout", "0", "-test.cpu", cpu)
+					if b, err := os.ReadFile(filepath.Join(wdir, fmt.Sprintf("part-%s-0.json", j.Label))); err == nil {
+						var p core.Part
+						if json.Unmarshal(b, &p) == nil {
+							out[k] = res{p.Digest, p.Evaluations}
+						}
+					}
+				}(k)
+			}
+			wg.Wait()
+			for _, o := range out {
+				r.Digests = append(r.Digests, o.d)
+				r.Records = append(r.Records, o.n)
+				if o.d == "" || o.d != out[0].d || o.n != out[0].n {
+					r.OK = false
+				}
+			}
+			if !r.OK {
+				bad++
+			}
+			fmt.Printf("selftest %s/%s: ok=%v records=%v digests=%v\n", id, j.Label, r.OK, r.Records, r.Digests)
+			rows = append(rows, r)
+		}
+		os.RemoveAll(scratch)
+	}
+	b, _ := json.MarshalIndent(map[string]any{"what": "same seed, 6 fresh processes per configuration at GOMAXPROCS 1/4/16: fold of history and observation hashes of all records", "rows": rows, "wall_s": time.Since(start).Seconds()}, "", " ")
+	os.MkdirAll(filepath.Join(verifDir, "evidence"), 0o755)
+	os.WriteFile(filepath.Join(verifDir, "evidence", "selftest-determinism.json"), b, 0o644)
+	if bad > 0 {
+		return 2
+	}
+	return 0
 }
